@@ -119,7 +119,8 @@ func validDoc(r *rng, f string) []byte {
 		if r.chance(1, 3) {
 			addTails(r, &tc)
 		}
-		return buildTS(r, tc, ttTSOpts{pid: uint16(0x100 + r.intn(0xe00)), video: r.bool(), period: 5, secondTT: r.chance(1, 4)})
+		return buildTS(r, tc, ttTSOpts{pid: uint16(0x100 + r.intn(0xe00)), video: r.bool(), period: 5, secondTT: r.chance(1, 4), vbi: r.chance(1, 4),
+			emptyDesc: r.chance(1, 6)})
 	}
 	panic("format")
 }
